@@ -409,6 +409,65 @@ impl Engine for Emplace {
                             }
                         }
                     }
+                    // FlatWrap::default_in_place over an owned AlignedBytes, read through Deref, unwrapped again
+                    for n in 0..=top {
+                        for fill in [0x00u8, 0xEE] {
+                            journal(format!("emplace {} wrapdefault n={} fill={}", id, n, fill).as_bytes());
+                            let fits = encode(&d, &dv, n, 0).is_ok();
+                            let r = catch(|| s.wrap_default_in_place(n, a, fill));
+                            let replay = json!({"engine": "emplace", "shape": id, "vi": -1, "kind": "iter", "entry": "FlatWrap::default_in_place(owned)", "n": n, "off": 0, "fill": fill});
+                            let mut bad: Vec<(&'static str, String, String)> = vec![];
+                            match r {
+                                Err(p) => bad.push(("C15", format!("panic/{}", panic_site(&p)), format!("panic: {}", p))),
+                                Ok(None) => {}
+                                Ok(Some(Err(e))) => {
+                                    if fits {
+                                        bad.push(("C15", "refused_fitting".into(), format!("owned buffer of {} bytes can hold the default but was refused: {:?}", n, e)));
+                                        bad.push(("C20", "refused_fitting".into(), format!("owned buffer of {} bytes can hold the default but was refused: {:?}", n, e)));
+                                    } else if e.kind != ErrorKind::InsufficientSize {
+                                        bad.push(("C15", format!("too_small_kind/{:?}", e.kind), format!("{} bytes too small, refused with {:?}", n, e)));
+                                    }
+                                }
+                                Ok(Some(Ok((o, back)))) => {
+                                    if !fits && encode(&d, &dv, ceil(n, a), 0).is_err() {
+                                        bad.push(("C15", "accepted_too_small".into(), format!("owned buffer of {} bytes accepted", n)));
+                                    }
+                                    let base = o.self_addr;
+                                    let mut probs = o.walk.problems.clone();
+                                    for (p_, l, what) in &o.walk.ranges {
+                                        if !(*p_ >= base && p_ + l <= base + n) {
+                                            probs.push(format!("{} outside the owned buffer of {}", what, n));
+                                        }
+                                    }
+                                    if o.value.0 != dv {
+                                        probs.push(format!("reads {:?}", o.value.0));
+                                    }
+                                    if back.len() != n {
+                                        probs.push(format!("into_inner returned {} bytes", back.len()));
+                                    } else if let Ok(img) = encode(&d, &dv, n, 0) {
+                                        if (0..img.extent.min(n)).any(|i| img.mask[i] && back[i] != img.bytes[i]) {
+                                            probs.push(format!("bytes {} differ from the reference {}", hex(&back[..img.extent.min(n)]), hex(&img.bytes[..img.extent.min(n)])));
+                                        }
+                                    }
+                                    if let Some(p0) = probs.first() {
+                                        let what = p0.split(|ch: char| ch.is_ascii_digit()).next().unwrap_or("").trim().replace(' ', "_");
+                                        bad.push(("C20", format!("wrap_default/{}", what), probs.join("; ")));
+                                    }
+                                }
+                            }
+                            for (p_, key, detail) in bad {
+                                if let Some(acc) = m.get_mut(p_) {
+                                    acc.violate(format!("emplace/{}/FlatWrap::default_in_place(owned)/{}", key, fam), format!("{} n={} fill={:02x}: {}", id, n, fill, detail), replay.clone());
+                                }
+                            }
+                            for p_ in ["C15", "C20"] {
+                                if let Some(acc) = m.get_mut(p_) {
+                                    acc.evaluations += 1;
+                                    acc.count("wrap_default", 1);
+                                }
+                            }
+                        }
+                    }
                     if let Some(acc) = m.get_mut("C20") {
                         acc.sample(json!({"shape": id, "default": format!("{:?}", dv), "need": need, "lengths": format!("0..={}", top), "fills": ["00", "ff", "ee", "incrementing"]}));
                         // the default must be the smallest state: size() == MIN_SIZE-state extent, checked through size_vs_extent above
